@@ -52,7 +52,21 @@ static inline int h_chance(hctx* h, int num, int den) { return (int)h_below(h, (
 
 /* Call after printing the input part of a line and before touching the real code: if the
  * real code then aborts (sanitizer, signal), the unfinished last line names the input. */
-static inline void h_call(hctx* h) { fflush(h->out); }
+static void h_watchdog_fire(int sig) {
+    (void)sig;
+    static const char m[] = "\nverif-harness: the operation on the unfinished last line used up its CPU-time budget (hang)\n";
+    if (write(2, m, sizeof m - 1) < 0) { }
+    _exit(78);
+}
+/* Every operation also gets a CPU-time budget (process CPU time, all threads; 300 s in the quick tier, 1500 s in the thorough
+ * tier - two orders of magnitude above what any operation needs): a decoder that never returns ends the run here, with the
+ * unfinished line as the failing input, instead of waiting for the orchestrator's component timeout.  Forked children set
+ * their own, tighter timers (h_cpu_alarm); a parent blocked in waitpid uses no CPU. */
+static inline void h_call(hctx* h) {
+    fflush(h->out);
+    struct itimerval it; memset(&it, 0, sizeof it); it.it_value.tv_sec = h->thorough ? 1500 : 300;
+    signal(SIGPROF, h_watchdog_fire); setitimer(ITIMER_PROF, &it, NULL);
+}
 
 /* exact-size heap buffer (so that ASan sees a one-byte overrun); size 0 gives a valid 1-byte
  * allocation whose single byte is poisoned by never being declared to the callee */
